@@ -66,6 +66,18 @@ func pauseBefore(i int) {
 	}
 }
 
+// liveFrac, when set, adds liveFrac[i] (a fraction of a millisecond) to the time the driver's virtual clock is advanced
+// before chunk i: real inter-arrival times are not whole milliseconds. Only relational checks (C14) use it: the
+// driver truncates every interval to whole milliseconds on its own, so absolute expectations would need its rounding rule.
+var liveFrac []time.Duration
+
+func fracBefore(i int) time.Duration {
+	if i < len(liveFrac) {
+		return liveFrac[i]
+	}
+	return 0
+}
+
 // silenceMs: pauses with a meaning in MIDI practice (active sensing: a receiver may assume the connection
 // lost after 300 ms of silence, senders repeat FE within 270..330 ms) and round values beyond
 var silenceMs = []int{270, 299, 300, 301, 329, 330, 331, 332, 400, 500, 999, 1000, 1001, 2000, 5000, 10_000, 60_000}
@@ -164,7 +176,7 @@ func (l *l2) run(cfg liveCfg, chunks [][]byte, deltas []int32) ([]obs, error) {
 	}
 	for i, ch := range chunks {
 		l.cur = i
-		l.drv.Sleep(time.Duration(deltas[i]) * time.Millisecond)
+		l.drv.Sleep(time.Duration(deltas[i])*time.Millisecond + fracBefore(i))
 		pauseBefore(i)
 		if err := l.out.Send(ch); err != nil {
 			return l.got, err
